@@ -222,11 +222,18 @@ static sqf::runtime::runtime::result execute_do(sqf::runtime::runtime& runtime, 
             sqf::runtime::diagnostics::stacktrace stacktrace(stacktrace_frames);
 
             // Try to find a frame that has recover behavior for runtime error
-            auto res = std::find_if(context_active.frames_rbegin(), context_active.frames_rend(),
-                [](sqf::runtime::frame& frame) -> bool { return frame.can_recover_runtime_error(); });
-
-            if (res != context_active.frames_rend())
-            { // We found a recoverable frame
+            // and actually accepts it (a try-catch frame only handles throw)
+            bool recovered = false;
+            size_t skip = 0;
+            while (!recovered)
+            {
+                auto res = std::find_if(context_active.frames_rbegin() + skip, context_active.frames_rend(),
+                    [](sqf::runtime::frame& frame) -> bool { return frame.can_recover_runtime_error(); });
+                if (res == context_active.frames_rend())
+                {
+                    break;
+                }
+                // We found a recoverable frame
                 stacktrace.value = std::make_shared<sqf::types::d_array>(log_messages.begin(), log_messages.end());
                 // Push Stacktrace to value-stack
                 context_active.push_value({ std::make_shared<sqf::types::d_stacktrace>(stacktrace) });
@@ -239,7 +246,18 @@ static sqf::runtime::runtime::result execute_do(sqf::runtime::runtime& runtime, 
                 }
 
                 // Recover from exception
-                context_active.current_frame().recover_runtime_error(runtime);
+                if (context_active.current_frame().recover_runtime_error(runtime) != sqf::runtime::frame::result::error)
+                {
+                    recovered = true;
+                }
+                else
+                { // Frame declined, drop the stacktrace again and look further out
+                    context_active.pop_value();
+                    skip = 1;
+                }
+            }
+            if (recovered)
+            {
                 runtime_error = false;
             }
             else
